@@ -230,6 +230,10 @@ def dmrg_hadamard(x, y, z0 = None, nswp = 20, eps = 1e-12, rmax = 32768, kickran
     Returns:
         TT: the result.
     """
+    if x.is_ttm or y.is_ttm or len(x.N) != len(y.N) or any(n != m and m != 1 for n, m in zip(x.N, y.N)):
+        raise torchtt.errors.ShapeMismatch('Both operands must be TT tensors of the same shape (size 1 modes of the second one are broadcast).')
+    if z0 is not None and (z0.is_ttm or z0.N != x.N):
+        raise torchtt.errors.ShapeMismatch('The initial guess must have the shape of the operands.')
     if len(x.N) == 1:
         # one core only: there is no pair of cores to optimize and the exact product has rank 1
         return x * y
